@@ -52,8 +52,8 @@ func (a *onceAttached) Wait(context.Context) error {
 	vs.Point("attached.Wait")
 	return nil
 }
-func (a *onceAttached) Kill(context.Context) error                        { a.st.r.exit(); return nil }
-func (a *onceAttached) ID() string                                        { return "attached-1" }
+func (a *onceAttached) Kill(context.Context) error { a.st.r.exit(); return nil }
+func (a *onceAttached) ID() string                 { return "attached-1" }
 func (a *onceAttached) PluginToHost(n, ad string) (string, string, error) {
 	if a.st.xlate { // a container-style runner: the plugin's /plugin-view/... is the host's /...
 		return n, strings.Replace(ad, "/plugin-view/", "/", 1), nil
